@@ -554,6 +554,26 @@ pub fn tx_monitors(h: &Hist, ms: &mut MonState, b: &Obs, line: &str, res: &str, 
             }
         }
     }
+    // C10 / C07: when the recorded amount of an OPEN position grows (a top-up: by its owner, or by the pool manager on the
+    // owner's behalf) the weight is credited to the position's OWNER: the owner's latest weight in that LP token grows, and
+    // nobody else's (the pool manager's included) changes
+    if ok {
+        for p in b.positions.iter().filter(|p| p.open) {
+            if let Some(q) = a.positions.iter().find(|q| q.identifier == p.identifier) {
+                if q.open && q.lp_asset.amount > p.lp_asset.amount {
+                    let lp = h.w.cd(&p.lp_asset.denom);
+                    let owner = h.w.n(p.receiver.as_str());
+                    let latest = |o: &Obs, who: &str| -> u128 { o.users.get(who).and_then(|u| u.1.get(&lp)).and_then(|hh| hh.last()).map(|x| x.1).unwrap_or(0) };
+                    let grew = latest(a, &owner) > latest(b, &owner);
+                    let others = ["u1", "u2", "u3", "u4", "owner", "out", "pm"].iter().filter(|u| **u != owner && latest(a, u) != latest(b, u)).count();
+                    out.push(format!("mon_topup_weight {} {}", grew as u8, others));
+                    // C08 / C05: … and the recorded amount grows only by LP tokens of the position's OWN denom that the farm manager
+                    // received in this very transaction
+                    out.push(format!("mon_topup_backed {} {}", q.lp_asset.amount.u128() - p.lp_asset.amount.u128(), delta(b, a, "fm", &lp)));
+                }
+            }
+        }
+    }
     // C08: the recorded amount of a position changes (or the position disappears) only through an
     // operation of its owner — directly on the farm manager, or through a deposit the owner makes on the
     // pool manager
@@ -600,6 +620,35 @@ pub fn tx_monitors(h: &Hist, ms: &mut MonState, b: &Obs, line: &str, res: &str, 
                     out.push(format!("mon_ss_pool_d {} {} {}", pool_str(&pb2), after.len(), after.join(" ")));
                 }
             }
+        }
+    }
+    // C03, hop by hop: every hop of an executed route reports the reserves of its pool right after it (`pool_identifier`,
+    // `pool_reserves` attributes, in order).  For a constant-product pool the product of the reported reserves after a hop is
+    // at least the product after the previous visit of the same pool in this route (or before the transaction, for the first
+    // visit) — also when a pool is visited twice, where the before/after snapshots only show the net effect
+    if ok && tx.contract == "pm" && tx.kind == "route" {
+        let ids: Vec<&String> = h.last_attrs.iter().filter(|(k, _)| k == "pool_identifier").map(|(_, v)| v).collect();
+        let res: Vec<&String> = h.last_attrs.iter().filter(|(k, _)| k == "pool_reserves").map(|(_, v)| v).collect();
+        let amounts = |r: &str| -> Vec<u128> { r.split(',').map(|c| c.chars().take_while(|ch| ch.is_ascii_digit()).collect::<String>().parse::<u128>().unwrap_or(0)).collect() };
+        if ids.len() == res.len() {
+            let mut last: std::collections::BTreeMap<String, Vec<u128>> = std::collections::BTreeMap::new();
+            for (id, r) in ids.iter().zip(res.iter()) {
+                let now = amounts(r);
+                let prev = match last.get(*id) { Some(v) => Some(v.clone()), None => pool(b, id).map(|p| p.assets.iter().map(|c| c.amount.u128()).collect()) };
+                if let (Some(prev), Some(pb)) = (prev, pool(b, id)) {
+                    if matches!(pb.pool_type, PoolType::ConstantProduct) && prev.len() == 2 && now.len() == 2 {
+                        out.push(format!("mon_hop_k {} {} {} {}", prev[0], prev[1], now[0], now[1]));
+                    }
+                }
+                last.insert((*id).clone(), now);
+            }
+        }
+    }
+    // C13: an executed route delivered at least the `minimum_receive` it carried
+    if ok && tx.contract == "pm" && tx.kind == "route" {
+        let n: usize = tx.args[0].parse().unwrap_or(0);
+        if let Some(mr) = tx.args.get(1 + 3 * n).and_then(|x| x.parse::<u128>().ok()) {
+            out.push(format!("mon_min_receive {} {}", mr, attr(h, "return_amount").unwrap_or(0)));
         }
     }
     // C12: SimulateSwapOperations an instant before = the final amount of the executed route (pools pairwise distinct)
@@ -742,6 +791,12 @@ pub fn tx_monitors(h: &Hist, ms: &mut MonState, b: &Obs, line: &str, res: &str, 
                 let now_s = b.now_ns / 1_000_000_000;
                 let emergency = tx.args[1] == "true";
                 let expired = p.expiring_at.map(|e| e <= now_s).unwrap_or(false);
+                // C10: leaving with a position that was still OPEN (only an emergency exit can) takes its weight away: the owner's
+                // and the total's latest weight in that LP token both become strictly smaller — whatever the penalty is
+                if ok && p.open && !p.lp_asset.amount.is_zero() {
+                    let latest = |o: &Obs, who: &str| -> u128 { o.users.get(who).and_then(|u| u.1.get(&lp)).and_then(|hh| hh.last()).map(|x| x.1).unwrap_or(0) };
+                    out.push(format!("mon_exit_weight {} {} {} {}", latest(b, &owner), latest(a, &owner), latest(b, "fm"), latest(a, "fm")));
+                }
                 out.push(format!("mon_withdrawpos_accept {} {} {} {} {}", ok as u8, (owner == tx.sender) as u8, emergency as u8,
                     p.expiring_at.map(|e| e.to_string()).unwrap_or("-".into()), now_s));
                 // the roles of the accounts: position owner, the farm manager's configured fee collector, everybody else; when the
@@ -899,7 +954,8 @@ pub fn tx_monitors(h: &Hist, ms: &mut MonState, b: &Obs, line: &str, res: &str, 
             Some(g) => g.owner != f.owner || g.start_epoch != f.start_epoch || g.farm_asset.denom != f.farm_asset.denom || g.claimed_amount < f.claimed_amount,
         });
         // (when the configured fee collector is the creator itself, fee and payment cancel on its balance: not judged)
-        if ok && tx.kind == "createfarm" && !farm_closed && fm_collector(h) != tx.sender {
+        // (… and when the farm manager is its own fee collector it keeps reward + fee on one balance: `MonSoundF.monFarmCreate_fires_collector_is_fm`)
+        if ok && tx.kind == "createfarm" && !farm_closed && fm_collector(h) != tx.sender && fm_collector(h) != "fm" {
             // what the creator paid, what the fee collector and the farm manager received
             let fee = h.w.app.wrap().query_wasm_smart::<mantra_dex_std::farm_manager::Config>(h.w.a("fm"), &mantra_dex_std::farm_manager::QueryMsg::Config {}).map(|c| c.create_farm_fee).ok();
             if let Some(fee) = fee {
